@@ -218,20 +218,28 @@ fn run_llvm(items: &[String], labels: &[(usize, String)]) -> Result<Vec<Decoded>
 /// "add x0, x1, x2" / "b.eq 0x2c <L11>" -> normalised text
 pub fn normalise(raw: &str, addr: u64) -> String {
     let raw = raw.trim();
-    // strip a trailing comment
+    // strip a trailing comment and the symbolic annotation of a target
     let raw = raw.split(" //").next().unwrap_or(raw).trim();
-    if let Some(lt) = raw.find(" <") {
-        // "... 0x2c <L11>": replace the absolute target by the offset from this instruction
-        let head = &raw[..lt];
+    let head = match raw.find(" <") {
+        Some(lt) => raw[..lt].trim_end(),
+        None => raw,
+    };
+    let mn = head.split(' ').next().unwrap_or("");
+    let pcrel = matches!(mn, "b" | "bl" | "cbz" | "cbnz" | "tbz" | "tbnz" | "adrp") || mn.starts_with("b.");
+    if pcrel {
+        // the last operand is the absolute target: replace it by the offset from this instruction
         if let Some(hx) = head.rfind("0x") {
-            if let Ok(target) = u64::from_str_radix(&head[hx + 2..], 16) {
-                let base = if raw.starts_with("adrp") { addr & !0xfff } else { addr };
-                let rel = target.wrapping_sub(base) as i64;
-                return format!("{}@{}", &head[..hx], rel);
+            let tail = &head[hx + 2..];
+            if !tail.is_empty() && tail.chars().all(|c| c.is_ascii_hexdigit()) && !head[..hx].ends_with('#') {
+                if let Ok(target) = u64::from_str_radix(tail, 16) {
+                    let base = if mn == "adrp" { addr & !0xfff } else { addr };
+                    let rel = target.wrapping_sub(base) as i64;
+                    return format!("{}@{}", &head[..hx], rel);
+                }
             }
         }
     }
-    raw.to_string()
+    head.to_string()
 }
 
 fn parse_imm(tok: &str) -> Option<i128> {
